@@ -29,6 +29,18 @@ CLAIMED = {
    design_ref='DESIGN.md section 4, C16; section 5 F9',
    note='Trusted: Coq kernel + vm_compute, Flocq 4.1.0, the 4 classical/real stdlib axioms, the hand-written model (bit-exact correspondence, not proof), IEEE-754 conformance of rustc on x86-64. Guards of the float-tier theorems: reported error finite (implies no overflow/NaN anywhere), bottom row (0,0,0,1), no product m_ij*x_j in (0, 2^(emin+2prec)) (binary64: 2^-968; C16_S_underflow_refuted shows the guard is needed). Not proved: (S) at factor 1 for vec_propagate_error (edge case, no counterexample found); the float reading of (R) (sampled by the oracle with a rounding tolerance).',
    technique='Coq/Flocq forward error analysis over all formats + vm_compute witnesses + bit-exact model/code correspondence'),
+ 'C14': dict(
+   category='proof',
+   text='Theorems about the Gallina model of BBox3D::intersect (checked bit-for-bit against the crate on every run). Exact tier (reals, all three direction components non-zero, inv_dir = 1/d): the answer is true exactly when the three slab parameter intervals, far ends widened by 1+2*gamma(3), share a parameter t > 0; hence every ray with a point o+t*d, t > 0, in the CLOSED box is accepted (any corner order, flat boxes, origins inside, any signs of d), and an accepted ray passes ahead of its origin through the box with faces pushed out by 2*gamma(3)*|face-origin|; t > 0 cannot be weakened to t >= 0 (witness). Float tier (every Flocq binary format): complete table of the IEEE special values of axis-parallel rays (inv = +-inf, 0*inf = NaN): zero component with origin outside the slab -> rejected; strictly inside -> slab ignored; ON a face plane: ignored in y/z for +0, but LOST in the x slab (recorded finding F10) and LOST in y/z for -0 (new finding) - both stated as theorems for all formats, as decidable predicates on the inputs, with binary64 witnesses by vm_compute. Thm 3 (rounded finite case) only partially: completeness from a no-margin condition on the COMPUTED plane parameters (incl. bit-equal flat slabs); the link exact -> computed parameters is sampled by the exact-rational oracle, not proved.',
+   design_ref='DESIGN.md section 4, C14',
+   note='Trusted: Coq kernel + vm_compute, Flocq 4.1.0, the stdlib real/classical axioms printed by Print Assumptions, the hand-written model (bit-exact correspondence, incl. BBox3D::new), IEEE-754 conformance of rustc on x86-64. Two classes of lost rays are KNOWN FINDINGS of the crate (known_findings.json), not repaired. Oracle: exact rationals, zero direction components handled symbolically; lost ray flagged when the exact ray meets the closed box at t > 0 clear of exact tangency (1e-12 relative on parameters of different axes); false hit flagged only when the ray misses the box grown by 1e-6 of the scale.',
+   technique='Coq proof over R (case analysis + lra/nra) and over Flocq for all formats + bit-exact model/code correspondence (vm_compute) + exact-rational oracle'),
+ 'C15': dict(
+   category='proof',
+   text='Theorems over the reals about the Gallina model of bbox3d.rs, transform_bbox/inv_transform_bbox and the bounds()/world_bounds() of triangle, sphere and cylinder: new normalises any two corners (smallest box containing both); from_union contains both operands and from_union_point box and point (and are the smallest such); from_intersection is contained in both operands, its points are exactly the common points, and it is a well-formed box iff overlaps; overlaps is symmetric and equivalent to the existence of a common point; point_inside(_exclusive) characterised; for EVERY affine matrix the transformed box contains the image of every point of the box (device D5) and dropping any one of the eight corners breaks this (proved for each corner); inverse-transforming a transformed box contains the original (with C06 Inv); every convex combination of a triangle\'s vertices, every point of x^2+y^2+z^2=r^2 (resp. x^2+y^2=r^2) between the clips lies in the local bounds (also through the constructors\' clamping), and world bounds = transform of local bounds contain every transformed surface point. The order lemmas are also proved for boxes with finite float coordinates of every Flocq format. The model runs bit-for-bit against the crate on every run; reported ray hits of intersect/simple_intersect (world) and the *_local_ray variants are checked to lie inside world_bounds()/bounds() up to the rounding of the hit by an exact-rational oracle.',
+   design_ref='DESIGN.md section 4, C15',
+   note='Trusted: Coq kernel + vm_compute, stdlib real axioms (+ Classical_Prop.classic through Flocq for the float section), the hand-written model (bit-exact correspondence; Cylinder3D::new passes through libm so its transform is read back through the hook), IEEE-754 conformance of rustc. Not proved: that reported hits are surface points (C02) and float vs exact evaluation; both sampled by the oracle (16 u times the magnitudes entering the hit; for triangles times the conditioning of the Moller-Trumbore quotient). Disk3D::bounds (unimplemented!) and DistantSource3D::bounds (panics by design) are outside the property.',
+   technique='Coq proof over R (min/max lemmas, sign split on coefficients + lra/nra) + generic order section instantiated on Flocq + bit-exact correspondence + exact-rational oracle'),
 }
 NOT_YET = 'check not built yet in this round (machinery under construction); see DESIGN.md section 4 for the planned Coq model and theorems'
 
